@@ -22,6 +22,7 @@ Section Statement.
   Variable sccs_of : list (modid * list modid) -> list (list modid).
   Variable reach : list (modid * list modid) -> modid -> modid -> bool.
   Variable sdo_of : list modid -> opts -> nat.
+  Variable thash : list (modid * list modid) -> modid -> nat.
   Variable ign_of : modid -> stamp -> opts -> bool.
   Variable blocker : modid -> content -> bool.
 
@@ -31,9 +32,9 @@ Section Statement.
   Definition warm_equals_cold_for_all_histories : Prop :=
     forall (h : list (FS * opts)) (fs : FS) (o : opts) (n n' : nat),
       (forall fs' o', In (fs', o') h -> FSOK fs') -> FSOK fs ->
-      output fs (warm content_of imports probes analyze sccs_of reach sdo_of ign_of blocker
-                      (runs content_of imports probes analyze sccs_of reach sdo_of ign_of blocker empty_store 0 h) fs o n)
-      = output fs (cold content_of imports probes analyze sccs_of reach sdo_of ign_of blocker fs o n').
+      output fs (warm content_of imports probes analyze sccs_of reach sdo_of thash ign_of blocker
+                      (runs content_of imports probes analyze sccs_of reach sdo_of thash ign_of blocker empty_store 0 h) fs o n)
+      = output fs (cold content_of imports probes analyze sccs_of reach sdo_of thash ign_of blocker fs o n').
 End Statement.
 
 (* the edits of the property text, as transitions between file-system states *)
